@@ -18,7 +18,7 @@ pub fn def() -> PropDef {
         job_level,
         run_job,
         replay,
-        rule: "pure part (exhaustive): ALL override tables of 1 override (input mods subset of {lctl,lsft,ralt}, input key in {a,b}, output mods subset of {lsft,rctl}, output key in {b,c}: 128) and ALL ordered pairs (16384), built with the real Override::try_new/Overrides::new, x ALL lists of <= 4 distinct active keys from the 8-key universe {lctl,lsft,ralt,rctl,a,b,c,d} in every order (2081 lists) -> real Overrides::override_keys vs the reference substitution (for each non-modifier key in list order, among its overrides whose modifiers all precede it, the one with most modifiers (first on ties) applies; inputs removed, outputs appended once). Strict where all modifiers precede the non-modifier keys; otherwise either the in-order reading or the all-modifiers reading is accepted. Pipeline part: the 128 single tables + pairs that share their input key (nested / disjoint / equal modifier sets) as defoverrides configs x override-release-on-activation {no,yes} x ALL physically consistent histories of D steps over press/release of {lsft,lctl,a,b} + tick 1 (quick D=5), compared event by event with the pipeline model (layered list + reference substitution + eager erasure of the overridden key); at the end nothing is held.",
+        rule: "pure part (exhaustive): ALL override tables of 1 override (input mods subset of {lctl,lsft,ralt}, input key in {a,b}, output mods subset of {lsft,rctl}, output key in {b,c}: 128) and ALL ordered pairs (16384), built with the real Override::try_new/Overrides::new, x ALL lists of <= 4 distinct active keys from the 8-key universe {lctl,lsft,ralt,rctl,a,b,c,d} in every order (2081 lists) -> real Overrides::override_keys vs the reference substitution (for each non-modifier key in list order, among its overrides whose modifiers all precede it, the one with most modifiers (first on ties) applies; inputs removed, outputs appended once). Mask matrix: ALL 256 required-modifier sets x ALL 256 held-modifier sets over the eight modifiers (65536 lists) for a single override. Strict where all modifiers precede the non-modifier keys; otherwise either the in-order reading or the all-modifiers reading is accepted. Pipeline part: the 128 single tables + pairs that share their input key (nested / disjoint / equal modifier sets) as defoverrides configs x override-release-on-activation {no,yes} x ALL physically consistent histories of D steps over press/release of {lsft,lctl,a,b} + tick 1 (quick D=5), compared event by event with the pipeline model (layered list + reference substitution + eager erasure of the overridden key); at the end nothing is held.",
         assumptions: &["modifier universe limited to 4 of the 8 modifiers in the exhaustive part (the mask code is uniform over the 8 bits; all 256x256 single-override modifier subsets are checked on a fixed key list in thorough)", "pipeline histories use keys mapped to themselves"],
         required_level,
         min_outcomes: 3,
@@ -316,6 +316,7 @@ enum Job {
     PureSingles,
     PurePairs { first: usize },
     PureAllMasks,
+    PureMaskMatrix,
     Pipe { table: Vec<Ov>, roa: bool, depth: usize },
 }
 
@@ -366,6 +367,7 @@ fn jobs(tier: Tier) -> &'static Vec<(u32, Job)> {
         if tier == Tier::Thorough {
             v.push((0, Job::PureAllMasks));
         }
+        v.push((0, Job::PureMaskMatrix));
         v.sort_by_key(|x| x.0);
         v
     })
@@ -403,6 +405,31 @@ fn run_job(tier: Tier, idx: usize, st: &mut Stats) {
                 }
             }
             st.outcome("pure-pairs");
+        }
+        Job::PureMaskMatrix => {
+            // ALL 256 input-modifier sets of a single override (a -> b) x ALL 256 sets of held modifiers
+            // (held in the fixed order below, then a): decides the modifier-mask matching for every pair
+            // (required set, held set), in particular that every one of the eight modifiers is told apart
+            let mods8 = ["lctl", "lsft", "lalt", "lmet", "rctl", "rsft", "ralt", "rmet"];
+            for im in 0..256u32 {
+                let o = Ov { in_mods: (0..8).filter(|b| im & (1 << b) != 0).map(|b| mods8[b]).collect(), in_key: "a", out_mods: vec![], out_key: "b" };
+                let real = Overrides::new(&[o.real()]);
+                let mut states = OverrideStates::new();
+                for held in 0..256u32 {
+                    let mut list: Vec<&'static str> = (0..8).filter(|b| held & (1 << b) != 0).map(|b| mods8[b]).collect();
+                    list.push("a");
+                    let mut kcs: Vec<KeyCode> = list.iter().map(|k| kc_of(k)).collect();
+                    real.override_keys(&mut kcs, &mut states);
+                    let (want, _) = reference(&[o.clone()], &list, false);
+                    st.evaluations += 1;
+                    st.validated += 1;
+                    if kcs != want.iter().map(|k| kc_of(k)).collect::<Vec<_>>() {
+                        st.violation(Violation { property: "C13".into(), signature: "pure::maskmatrix".into(), what: format!("override {} on {:?}: real {:?} want {:?}", o.text(), list, kcs, want), detail: json!({"kind": "pure", "family": "maskmatrix", "cfg": ""}) });
+                        return;
+                    }
+                }
+            }
+            st.outcome("pure-maskmatrix");
         }
         Job::PureAllMasks => {
             // all 256 x 256 (input mods, output mods) single overrides on key a -> b, lists: all 8 mods held (in a fixed order) + a, and each single-mod-missing list
@@ -484,8 +511,9 @@ fn replay(d: &serde_json::Value) -> Vec<Violation> {
     if d.get("kind").and_then(|x| x.as_str()) == Some("pure") {
         let mut st = Stats::default();
         let tier = Tier::Quick;
+        let matrix = d.get("family").and_then(|x| x.as_str()) == Some("maskmatrix");
         for i in 0..n_jobs(tier) {
-            if matches!(jobs(tier)[i].1, Job::PureSingles | Job::PurePairs { .. }) {
+            if (!matrix && matches!(jobs(tier)[i].1, Job::PureSingles | Job::PurePairs { .. })) || (matrix && matches!(jobs(tier)[i].1, Job::PureMaskMatrix)) {
                 run_job(tier, i, &mut st);
             }
             if !st.violations.is_empty() {
